@@ -806,6 +806,33 @@ theorem C06_adopt_after_batches (s : St) (db : DB) (g : GDir) (n : Nat) (gm vis 
       (NoPend (Engine.logOf g) → NoPend (Engine.logOf (gm ++ MergeP.hi g n))) ∧ db'.activeId = db.activeId :=
   restart_adopt cfg' hdb hinv hmo hF hcfg
 
+/-- the hypotheses of `C06_mergeOut_stable_batch` are satisfiable: the one-record example state of
+    C02 / C06 right after its `Merge` (which succeeds: `#guard` in `Properties/C06.lean`), any batch
+    session with any positive id -/
+example (hm : (merge C02.exSt [0]).2 = .ok) (sync : Bool) (id : Nat) (h0 : 0 < id) (hlt : id < 2 ^ 63)
+    (ops : List C05.BOp) (hok : ∀ op ∈ ops, C05.BOpOK op) :
+    ∃ db' g' gm vis, (C05.runBatch (merge C02.exSt [0]).1 sync id ops).1.db = some db' ∧
+      Inv (C05.runBatch (merge C02.exSt [0]).1 sync id ops).1 db' g' ∧
+      MergeOutB (C05.runBatch (merge C02.exSt [0]).1 sync id ops).1.world "d" g' 1 gm vis := by
+  obtain ⟨h1, h2, _, ⟨gm, vis, hmo⟩, _⟩ := C06.C06_merge_establishes C02.exSt (merge C02.exSt [0]).1 C02.exDB C02.exG
+    [0] rfl C02.exInv (by simp) (by decide) (by rw [← hm])
+  have hnp0 : NoPend (Engine.logOf C02.exG) := by
+    have : NoPend ([] ++ Engine.logOf C02.exG) := by
+      apply NoPend_plain (fun id => rfl)
+      intro x hx
+      obtain ⟨y, hy, hr⟩ := MergeP.mem_logOf_record (r := x.1) (p := x.2) hx
+      simp only [C02.exG, List.mem_singleton] at hy
+      subst hy
+      simp only [List.mem_singleton] at hr
+      rw [hr]; rfl
+    simpa using this
+  have hnp : NoPend (Engine.logOf (C02.exG ++ [(C02.exDB.activeId + 1, [])])) := by
+    rw [logOf_new_file]; exact hnp0
+  have hmoB := MergeOutW.toB hmo h2.asc hnp
+  obtain ⟨_, db', g', e1, _, e3, _, e5, _⟩ := C06_mergeOut_stable_batch (merge C02.exSt [0]).1 (MergeP.rotDB C02.exDB) _ _
+    gm vis sync id ops h1 h2 hmoB hnp h0 hlt hok
+  exact ⟨db', g', gm, vis, e1, e3, e5⟩
+
 /-! ## non-vacuity: an executed history for which every side condition is PROVED
 
 `open "d"` (file-size limit 120: a rotation every second or third record) · plain writes · a batch
